@@ -67,7 +67,9 @@ func c18rInBubble(ops []c18rOp, hist []int) verifx.SearchResult {
 	var sessions []*ClientSession
 	for i, v := range versions {
 		cl := NewClient(&Implementation{Name: fmt.Sprint("c", i), Version: "1"}, &ClientOptions{Logger: quietLogger,
-			ResourceUpdatedHandler: func(ctx context.Context, r *ResourceUpdatedNotificationRequest) { got[i] = append(got[i], r.Params.URI) }})
+			ResourceUpdatedHandler: func(ctx context.Context, r *ResourceUpdatedNotificationRequest) {
+				got[i] = append(got[i], r.Params.URI)
+			}})
 		ct, st := NewInMemoryTransports()
 		if _, err := s.Connect(ctx, st, nil); err != nil {
 			return bad("setup", "%v", err)
